@@ -84,12 +84,17 @@ def showOpt : Option Name → String
   | none => "N"
   | some n => encCps n
 
+def showKind : RuleK → String
+  | .charset e => "cs:" ++ encCps e | .comment => "cm" | .imp => "im" | .other => "ot"
+
+def showKinds (l : List RuleK) : String := if l.isEmpty then "-" else "+".intercalate (l.map showKind)
+
 def showRec (r : Rec) : String :=
   ",".intercalate [toString r.depth, encCps r.url, if r.found then "1" else "0", showOpt r.parentArg,
-    toString r.enctype, encCps r.used, encCps r.text, encCps r.reported]
+    toString r.enctype, encCps r.used, encCps r.text, encCps r.reported, showKinds r.rules]
 
 def showParsed (p : Parsed) : String :=
-  "OK enc=" ++ encCps p.encoding ++ " text=" ++ encCps p.text ++
+  "OK enc=" ++ encCps p.encoding ++ " rules=" ++ showKinds p.rules ++ " text=" ++ encCps p.text ++
   " log=" ++ ",".intercalate (p.out.log.map encCps) ++ " recs=" ++ "|".intercalate (p.out.recs.map showRec)
 
 def showItem : Item → String
